@@ -396,6 +396,11 @@ def rule_contexts(facts):
                 continue
             z, nz = blk.term.targets[0][1], blk.term.otherwise
             try:
+                if ev(t, mb=0, bit=0, sym=1) == ev(t, mb=0, bit=1, sym=1) or ev(t, mb=0, bit=0, sym=1) == ev(t, mb=0x80, bit=0, sym=1):
+                    continue        # not the comparison of the match bit with the decoded bit
+            except (pat.NotEvaluable, pat.Overflow):
+                continue
+            try:
                 okx = True
                 for mb in (0, 0x80):
                     for b_ in (0, 1):
